@@ -16,6 +16,8 @@ ASSUMPTIONS = [
     "solver objects, so sibling mix-ups are visible",
     "inside contains-lists and any-alternatives the governing schema node is not unique: there only the "
     "fact carried by the error's own fields is checked, not parameter provenance",
+    "ph.*: values with ... placeholders through the SubstitutorValidator (which skips them at list edges / as dict values): "
+    "whatever it does report must be true and located",
     "message clause: values are rendered opaquely (<sym>); only the path part of the message is checked",
 ]
 
@@ -51,8 +53,34 @@ MANY = {"int.minmax", "str.lenrange", "str.alpha.contains.len", "list.typed", "l
         "nest.dict.list.dict", "any.in.list", "list.typed.maxlen"}
 
 
+PH_BODY = """
+spec = {spec}
+S = build(spec)
+val = {val}
+r2 = validate_subst(S, val)
+why = errors_problem(spec, val, r2)
+if why:
+    return False, "substitutor-validator: " + why
+return True, ("noerr" if len(r2.get_errors()) == 0 else "errors")
+"""
+
+PLACEHOLDERS = [
+    ("ph.list.typed", "a: int, j: int, v0: int, v1: int", '("list_t", ("int", Nil, a, Nil), NOLEN)', "place3(j, ..., v0, v1)", ["0 <= j <= 2"]),
+    ("ph.list.typed.two", "a: int, v0: int", '("list_t", ("int", Nil, a, Nil), NOLEN)', "[..., v0, ...]", []),
+    ("ph.dict", "a: int, pa: bool, va: int, sel: int, px: bool",
+     '("dict", [("a", False, ("int", Nil, a, Nil)), ("b", True, ("none",))], False)',
+     "mkdict(('a', pa, ... if sel == 0 else va), ('b', True, ... if sel == 1 else 0), ('x', px, ...))", ["0 <= sel <= 2"]),
+    ("ph.nested", "a: int, j: int, v0: int, pa: bool",
+     '("dict", [("l", False, ("list_t", ("dict", [("a", False, ("int", Nil, a, Nil))], False), NOLEN))], True)',
+     "{'l': place3(j, ..., mkdict(('a', pa, v0)), {'a': ...})}", ["0 <= j <= 2"]),
+]
+
+
 def harnesses(tier, seed, active_kf=()):
     out = []
+    for name, params, spec, val, pre in PLACEHOLDERS:
+        out.append(mk("C03." + name, params, PH_BODY.format(spec=spec, val=val), covers=("noerr", "errors"), pre=pre, timeout=90,
+                      functions=FUNCS, prelude=PRELUDE, bounds=BOUNDS))
     for e in entries():
         if e["tier"] == "thorough" and tier != "thorough":
             continue
